@@ -1269,6 +1269,8 @@ class AV:
         known = it
         if known[0] == "c" and isinstance(known[1], tuple):
             known = ("list", tuple(C(x) for x in known[1]))
+        if known[0] == "c" and isinstance(known[1], str) and 0 < len(known[1]) <= 16:
+            known = ("list", tuple(C(ch) for ch in known[1]))  # iterating a constant string: its characters
         if known[0] == "list" and not any(i[0] in ("spread", "when") for i in known[1]) and _unrollable(known[1]):
             # a loop over a known sequence that can leave early is executed element by element
             broke = False
@@ -1700,6 +1702,10 @@ class AV:
                 if d_ in fr.env:
                     return fr.env[d_]
                 head = d_.split(".")[0]
+                if head in ("self", "cls") and d_.count(".") == 1 and fr.func is not None and "." in fr.func.qualname and n.attr.upper() == n.attr and any(ch.isalpha() for ch in n.attr):
+                    cv_ = self._class_constant(fr.func.qualname.split(".")[0], n.attr)
+                    if cv_ is not None:
+                        return cv_
                 if head in fr.env:
                     base = self._ev(n.value, fr)
                     return self._attr_nt(base, n.attr)
@@ -1745,6 +1751,39 @@ class AV:
             self._bind(n.target, v, fr)
             return v
         return unk(type(n).__name__)
+
+    def _class_constant(self, cls_name: str, attr: str):
+        """value of a class-level constant `NAME = <expr>` (looked up through the package bases), or None"""
+        key = (cls_name, attr)
+        cache = self.__dict__.setdefault("_class_consts", {})
+        if key in cache:
+            return cache[key]
+        cache[key] = None
+        seen, queue = set(), [cls_name]
+        while queue:
+            c = queue.pop(0)
+            if c in seen:
+                continue
+            seen.add(c)
+            for (rel, qn), cobj in self.sm.classes.items():
+                if qn != c:
+                    continue
+                for st in cobj.node.body:
+                    val = None
+                    if isinstance(st, ast.Assign) and len(st.targets) == 1 and isinstance(st.targets[0], ast.Name) and st.targets[0].id == attr:
+                        val = st.value
+                    elif isinstance(st, ast.AnnAssign) and isinstance(st.target, ast.Name) and st.target.id == attr and st.value is not None:
+                        val = st.value
+                    if val is not None:
+                        try:
+                            v = self._ev(val, Frame(None, rel, {}, 0, 0))
+                        except Exception:
+                            v = None
+                        if v is not None and not has_unk(v):
+                            cache[key] = v
+                        return cache[key]
+                queue.extend(b.split(".")[-1] for b in cobj.bases)
+        return None
 
     def _enum_member_value(self, dotted_name: str):
         """`Cls.member.value` / `Cls.member.name` for an Enum class of the package with constant members"""
@@ -1796,6 +1835,8 @@ class AV:
         known = _unwrap_seq(it)
         if known[0] == "c" and isinstance(known[1], tuple):
             known = ("list", tuple(C(x) for x in known[1]))
+        if known[0] == "c" and isinstance(known[1], str) and 0 < len(known[1]) <= 16:
+            known = ("list", tuple(C(ch) for ch in known[1]))  # iterating a constant string: its characters
         if known[0] == "list" and not any(i[0] in ("spread", "when") for i in known[1]) and _unrollable(known[1]):
             # a comprehension over a known sequence is evaluated element by element (constant propagation)
             out = []
@@ -2121,6 +2162,23 @@ class AV:
                     return a0  # dict(<mapping under construction>) is that mapping
                 if a0[0] == "comp" and (has(a0[3], "kv") or has(a0[3], "kadd")):
                     return a0
+                # dict([(k, v), ...]) over a known list of pairs with constant keys is a dict display
+                a1 = _unwrap_seq(a0)
+                if a1[0] == "list" and a1[1] and not any(i[0] in ("spread", "when") for i in a1[1]):
+                    pairs = []
+                    for i in a1[1]:
+                        if i[0] == "list" and len(i[1]) == 2 and i[1][0][0] == "c":
+                            pairs.append((i[1][0], i[1][1]))
+                        elif i[0] == "c" and isinstance(i[1], tuple) and len(i[1]) == 2:
+                            pairs.append((C(i[1][0]), C(i[1][1])))
+                        else:
+                            pairs = None
+                            break
+                    if pairs is not None:
+                        out_ = {}
+                        for k_, v_ in pairs:
+                            out_[k_] = v_
+                        return ("dict", tuple(out_.items()))
                 ev_ = _pairs_to_events(_unwrap_seq(a0))
                 if ev_[0] == "list":
                     return ev_
@@ -2675,6 +2733,10 @@ def _pairs_to_events(v):
     if v[0] == "comp" and len(v[3]) == 1 and v[3][0][0] == "list" and len(v[3][0][1]) == 2:
         k, x = v[3][0][1]
         return mk_list((("spread", ("comp", v[1], v[2], (("kv", k, x),), v[4])),))
+    if v[0] == "list":
+        # a pair whose two parts are constants is folded into one constant tuple by the list constructor: unfold
+        items = tuple(("list", (C(i[1][0]), C(i[1][1]))) if i[0] == "c" and isinstance(i[1], tuple) and len(i[1]) == 2 else i for i in v[1])
+        v = ("list", items)
     if v[0] == "list" and all(i[0] == "list" and len(i[1]) == 2 for i in v[1]):
         if all(i[1][0][0] == "c" for i in v[1]):
             return ("dict", tuple((i[1][0], i[1][1]) for i in v[1]))
